@@ -107,6 +107,16 @@ func csvRead(toks []tkTok, cfg csvConfig) [][]string {
 	return table
 }
 
+// csvConfigured: r is one of the configuration's separators or quote symbols
+func csvConfigured(cfg csvConfig, r rune) bool {
+	for _, x := range append(append([]rune{}, cfg.seps...), cfg.quotes...) {
+		if x == r {
+			return true
+		}
+	}
+	return false
+}
+
 // a token list kept by the caller while the instance goes on reading other texts
 type csvKept struct {
 	raw   mv
@@ -135,6 +145,11 @@ func (c *Ctx) csvxRun() *simpleVerdict {
 	// three separators, all of them used in one text
 	for i, eol := range []string{"\n", "\r", "\r\n", "\n\r"} {
 		cfgs = append(cfgs, csvConfig{[]rune{',', ';', '\t'}, [][]rune{{'"'}, {'"', '\''}}[i%2], eol})
+	}
+	// the blank as a field separator, alone and next to the tab and the comma: a run of blanks is as many
+	// separators as it has blanks
+	for i, seps := range [][]rune{{' '}, {' ', '\t'}, {',', ' '}, {'\t', ' ', ';'}} {
+		cfgs = append(cfgs, csvConfig{seps, [][]rune{{'"'}, {'"', '\''}}[i%2], []string{"\n", "\r", "\r\n", "\n\r"}[i]})
 	}
 	// how often a table also goes through another entry point / the reconfigured instance / is kept and read again
 	mEntry, mTravel, mKept := 23, 16, 16
@@ -293,6 +308,7 @@ func (c *Ctx) csvxRun() *simpleVerdict {
 						v.runs++
 					}
 				}
+				entries := append(append([]string{}, tkListEntries...), tkStringEntries...)
 				k := 0
 				var kept *csvKept
 				seconds := append([]string{"", "é€"}, alpha...)
@@ -343,21 +359,53 @@ func (c *Ctx) csvxRun() *simpleVerdict {
 						}
 					}
 				}
+				// empty fields stay empty: raw empty fields first, inner and last in a row, several in a row and whole
+				// rows of them, next to every configured separator, beside raw and quote-encoded neighbours
+				for si, sep := range cfg.seps {
+					for ti, table := range [][][]string{
+						{{"", "", "a"}, {"b", "", "", "c"}},
+						{{"a", "", ""}, {"", "", ""}},
+						{{"", "a", "", "", "", "b", ""}},
+						{{"a", "b"}, {"", ""}, {"", "", "", "c"}},
+						{{"", string(cfg.quotes[0]), "", ""}, {"", "", string(sep) + "a", ""}},
+					} {
+						text, vals := csvWriteMixed(table, cfg, cfg.quotes[(si+ti)%len(cfg.quotes)], func(int) rune { return sep }, false)
+						for ei, entry := range entries {
+							if c.Tier == "thorough" || ei == 0 || (si+ti+ei+ci)%len(entries) == 0 {
+								readBack(h, "", entry, table, text, vals)
+							}
+						}
+						// and with every configured separator in turn
+						if len(cfg.seps) > 1 {
+							text, vals = csvWriteMixed(table, cfg, cfg.quotes[0], func(j int) rune { return cfg.seps[(si+j)%len(cfg.seps)] }, false)
+							readBack(h, "", "TokenizeBuffer", table, text, vals)
+						}
+					}
+				}
 				// format and zero-width characters, the last configurable characters and the characters around
 				// them are field text like any other: first, inner and last in the first field of the first row,
 				// through every entry point that reads a text
-				zs := []rune{0xFEFF, 0xFFFE, 0xFFFD, 0xFFFC, 0x200B, 0x2028, 0x2029, 0x00AD, 0x2060, 0x0085, 0x200E}
-				entries := append(append([]string{}, tkListEntries...), tkStringEntries...)
+				// - and so are the first characters of the range (U+0000, the other control characters that are neither
+				// a line break nor configured), raw and quote-encoded
+				zs := []rune{0xFEFF, 0xFFFE, 0xFFFD, 0xFFFC, 0x200B, 0x2028, 0x2029, 0x00AD, 0x2060, 0x0085, 0x200E, 0x0000, 0x0001, 0x0002, 0x0008, 0x001F, 0x007F}
 				for zi, z := range zs {
 					for pi, f := range []string{string(z), string(z) + "id", "i" + string(z) + "d", "id" + string(z)} {
 						table := [][]string{{f, "x"}, {"y", f}}
 						if (zi+pi)%3 == 2 {
 							table = [][]string{{f}, {"x", ""}}
 						}
-						text, vals := csvWriteMixed(table, cfg, cfg.quotes[0], func(j int) rune { return cfg.seps[j%len(cfg.seps)] }, false)
-						for ei, entry := range entries {
-							if c.Tier == "thorough" || (zi+pi+ei+ci)%len(entries) == 0 {
-								readBack(h, "", entry, table, text, vals)
+						if csvConfigured(cfg, z) {
+							continue
+						}
+						for qi, quoteAll := range []bool{false, true} {
+							if quoteAll && len(table[0]) < 2 {
+								continue
+							}
+							text, vals := csvWriteMixed(table, cfg, cfg.quotes[0], func(j int) rune { return cfg.seps[j%len(cfg.seps)] }, quoteAll)
+							for ei, entry := range entries {
+								if c.Tier == "thorough" || (zi+pi+ei+ci+qi)%len(entries) == 0 {
+									readBack(h, "", entry, table, text, vals)
+								}
 							}
 						}
 					}
